@@ -66,6 +66,8 @@ type Monitors struct {
 	revivedExpired map[uuid.UUID]bool
 	// the delivery delay that was injected on the subscription when the delivery was enqueued
 	delayAt map[uuid.UUID]int64
+	// the filter a subscription had when a delivery was routed to it
+	enqFilter map[uuid.UUID]string
 	// maintenance jobs that failed: the other jobs that completed a round with minimum age 0 since
 	jobRounds map[string]map[string]bool
 	reopened  map[uuid.UUID]bool     // deliveries re-opened by a seek at some point
@@ -90,7 +92,7 @@ type LinkMis struct {
 
 func NewMonitors() *Monitors {
 	return &Monitors{pubs: map[uuid.UUID]*pubRecord{}, leases: map[uuid.UUID]*leaseRecord{}, acked: map[uuid.UUID]int64{},
-		policy: map[uuid.UUID][2]int64{}, reqDL: map[uuid.UUID]dlReq{}, revivedExpired: map[uuid.UUID]bool{}, delayAt: map[uuid.UUID]int64{}, jobRounds: map[string]map[string]bool{}, lastSeek: map[uuid.UUID]int64{}, reopened: map[uuid.UUID]bool{}, handouts: map[uuid.UUID]int{}, snaps: map[string]*snapRecord{},
+		policy: map[uuid.UUID][2]int64{}, reqDL: map[uuid.UUID]dlReq{}, revivedExpired: map[uuid.UUID]bool{}, delayAt: map[uuid.UUID]int64{}, enqFilter: map[uuid.UUID]string{}, jobRounds: map[string]map[string]bool{}, lastSeek: map[uuid.UUID]int64{}, reopened: map[uuid.UUID]bool{}, handouts: map[uuid.UUID]int{}, snaps: map[string]*snapRecord{},
 		lastPull: map[uuid.UUID]int64{}, dlDone: map[uuid.UUID]bool{}, Counts: map[string]int{}, linkMissing: map[uuid.UUID]bool{}, seekAcked: map[uuid.UUID]bool{}}
 }
 
@@ -461,6 +463,7 @@ func (m *Monitors) Observe(idx int, r *Result) {
 							m.fire("C14", "retention-at-publish", "message n=%d on subscription %s (retention %d ns) is retained for %d ns from its publish", spec.N, sb.Name, int64(sb.MessageTTL), ns(d.ExpiresAt)-ns(d.PublishedAt))
 						}
 						m.delayAt[did] = int64(sb.DeliveryDelay)
+						m.enqFilter[did] = strOf(sb.MessageFilter)
 						if ns(d.AttemptAt) != ns(d.PublishedAt)+int64(sb.DeliveryDelay) {
 							m.fire("C14", "delay-at-publish", "message n=%d on subscription %s (injected delay %d ns) is first due %d ns after its publish", spec.N, sb.Name, int64(sb.DeliveryDelay), ns(d.AttemptAt)-ns(d.PublishedAt))
 						}
@@ -574,8 +577,12 @@ func (m *Monitors) Observe(idx int, r *Result) {
 				if !attrsEqual(p.attrs, d.Attrs) || p.key != d.Key {
 					m.fire("C02", "attributes", "message n=%d published with attrs=%v key=%q delivered with attrs=%v key=%q", p.n, p.attrs, p.key, d.Attrs, d.Key)
 				}
-				if want, known := subTakes(sub, p.attrs); known && !want {
-					m.fire("C02", "filter", "subscription %s (filter %q) delivered message n=%d with attrs %v", sub.Name, strOf(sub.MessageFilter), p.n, p.attrs)
+				// the filter routes a message when it is published (or forwarded) to the subscription: the
+				// one in force then decides (UpdateSubscription may have replaced it since)
+				if f, rec := m.enqFilter[d.ID]; rec {
+					if sem, known := filterSem[f]; known && !sem(p.attrs) {
+						m.fire("C02", "filter", "subscription %s (filter %q when the message was routed) delivered message n=%d with attrs %v", sub.Name, f, p.n, p.attrs)
+					}
 				}
 			} else {
 				m.fire("C02", "unknown-message", "pull returned message id %s that no publish call returned", d.MsgID)
@@ -1045,6 +1052,9 @@ func (m *Monitors) checkDeadLetters(r *Result, path string) {
 		for _, d := range fw[src] {
 			forwarded[d.ID] = true
 			got[d.SubscriptionID]++
+			if sb := r.SubsBefore[d.SubscriptionID]; sb != nil {
+				m.enqFilter[d.ID] = strOf(sb.MessageFilter)
+			}
 			if d.MessageID != b.MessageID {
 				m.fire("C06", "other-message", "dead-letter forward of delivery %s created a delivery for another message", src)
 			}
